@@ -135,7 +135,8 @@ def restructure_precondition(program, rep: Report) -> None:
             keep.append(v)  # a listed finding stays what it is
             continue
         owner = v.construct.split(" :: ")[0].split(" [entry")[0].strip()
-        owners = [owner.replace(".*.", f".{side}.") for side in ("wsgi", "asgi")] if ".*." in owner else owner.split("|") if "|" in owner and ":" in owner else [owner]
+        owners = [owner.replace(".*.", f".{side}.") for side in ("wsgi", "asgi")] + [owner.replace(".*.", ".")] if ".*." in owner else owner.split("|") if "|" in owner and ":" in owner else [owner]
+        owners += [o_.replace(":parse_stream", ":parse_async_stream") for o_ in owners if o_.endswith(":parse_stream")]
         if "|" in owner and ":" in owner:
             mod_, quals = owner.split(":", 1)
             owners = [f"{mod_}:{q}" for q in quals.split("|")]
@@ -146,9 +147,18 @@ def restructure_precondition(program, rep: Report) -> None:
                 o = o.rsplit(".", 1)[0]
                 cands.append(o)  # enclosing function / class-level owner of a nested function
         new = []
+        from sa.common import with_helpers as _wh
         for o in cands:
             if o in cur:
                 new += [f"{o.split(':', 1)[-1]} -> {n}" for n in callshape.restructured(program, o, base, cur)]
+                # the private helpers the owner reaches are part of it (a finding in a single-caller helper is named after its caller)
+                try:
+                    fo = program.func(o)
+                    for h_ in _wh(program, fo)[1:]:
+                        if h_.fq in cur:
+                            new += [f"{h_.qualname} -> {n}" for n in callshape.restructured(program, h_.fq, base, cur)]
+                except Exception:
+                    pass
         if new and callshape.is_absence_finding(v.message):
             rep.undecide(v.rule, f"[demoted: call structure differs from the confirmed baseline ({'; '.join(sorted(set(new))[:4])})] {v.where}: {v.message[:160]}")
         else:
@@ -188,6 +198,11 @@ def main(argv=None) -> int:
     except (AnalysisError, Undecided) as e:
         print(f"ANALYSIS-ERROR property={prop} {e}")
         rep.undecide("engine", str(e))
+        try:  # findings made before the analysis gave up are subject to the same preconditions
+            descriptor_precondition(program, rep)
+            restructure_precondition(program, rep)
+        except Exception:
+            pass
         return 1 if rep.finish() == 1 else 2
     except Exception:
         traceback.print_exc()
